@@ -34,6 +34,8 @@ def draw(rng, domain, tie_with=None):
         return rng.choice([0, 0.125, 0.25, 0.375, 0.5, 0.625, 0.75, 0.875, 1])
     if domain in ("binary", "bool"):
         return float(rng.choice([0, 1]))
+    if domain == "cdfobs":      # observations inside the threshold grid 10..13 of the CDF entries
+        return rng.choice([10.0, 10.5, 11.0, 11.25, 12.0, 12.75, 13.0])
     if domain == "angle":
         return float(rng.choice([0, 45, 90, 135, 180, 225, 270, 315, 350, 360, 400, -30]))
     raise ValueError(domain)
@@ -74,6 +76,9 @@ class Case:
     specific: list = field(default_factory=list)
 
 
+_CASE_WEIGHTS = object()
+
+
 @dataclass
 class Entry:
     name: str
@@ -100,13 +105,13 @@ class Entry:
         m = importlib.import_module(self.module)
         return getattr(m, self.func)
 
-    def call(self, case: Case, request: dict, use_weights=True, arrays=None, weights="__case__"):
+    def call(self, case: Case, request: dict, use_weights=True, arrays=None, weights=_CASE_WEIGHTS):
         f = self.resolve()
         arrs = arrays or case.arrays
         args = [arrs[a] for a, _, _ in self.inputs]
         kw = dict(self.kwargs(case) if self.kwargs else {})
         kw.update(request)
-        w = case.weights if weights == "__case__" else weights
+        w = case.weights if weights is _CASE_WEIGHTS else weights
         if self.weights and use_weights and w is not None:
             kw["weights"] = w
         return f(*args, **kw)
@@ -129,6 +134,13 @@ def _sorted_cdf(rng, arr, case):
     """make fcst a valid CDF along 'threshold': sorted values in [0,1]"""
     ax = [str(d) for d in arr.dims].index("threshold")
     v = np.sort(arr.values, axis=ax)
+    # a proper CDF on its grid: 0 at the first threshold, 1 at the last, so that the (shared) integration
+    # grid — which also contains every observation — adds nothing outside the forecast's own thresholds
+    idx = [slice(None)] * v.ndim
+    idx[ax] = 0
+    v[tuple(idx)] = np.where(np.isnan(v[tuple(idx)]), np.nan, 0.0)
+    idx[ax] = -1
+    v[tuple(idx)] = np.where(np.isnan(v[tuple(idx)]), np.nan, 1.0)
     return arr.copy(data=v)
 
 
@@ -193,10 +205,14 @@ REGISTRY = [
     E("crps_for_ensemble", P, "crps_for_ensemble", "mean", True, [("fcst", "real", "fcst"), ("obs", "real", "obs")],
       specific=["member"], specific_sizes={"member": 3},
       kwargs=lambda c: {"ensemble_member_dim": fresh("member"), "method": "ecdf"}, passes_weights_dims=True),
-    E("crps_for_ensemble_fair_components", P, "crps_for_ensemble", "mean", True,
+    E("crps_for_ensemble_components", P, "crps_for_ensemble", "mean", True,
       [("fcst", "real", "fcst"), ("obs", "real", "obs")], specific=["member"], specific_sizes={"member": 3},
-      kwargs=lambda c: {"ensemble_member_dim": fresh("member"), "method": "fair", "include_components": True},
+      kwargs=lambda c: {"ensemble_member_dim": fresh("member"), "method": "ecdf", "include_components": True},
       out_extra_dims=["component"], passes_weights_dims=True),
+    E("crps_for_ensemble_fair", P, "crps_for_ensemble", "mean", True,
+      [("fcst", "real", "fcst"), ("obs", "real", "obs")], specific=["member"], specific_sizes={"member": 3},
+      kwargs=lambda c: {"ensemble_member_dim": fresh("member"), "method": "fair"}, passes_weights_dims=True,
+      notes="fair CRPS needs two valid members: with one it is NaN (0/0), the IEEE value of the documented expression"),
     E("tw_crps_for_ensemble", P, "tw_crps_for_ensemble", "mean", True, [("fcst", "real", "fcst"), ("obs", "real", "obs")],
       specific=["member"], specific_sizes={"member": 3},
       kwargs=lambda c: {"ensemble_member_dim": fresh("member"), "chaining_func": lambda x: np.maximum(x, 0.5)},
@@ -208,11 +224,11 @@ REGISTRY = [
       [("fcst", "real", "fcst"), ("obs", "real", "obs")], specific=["member"], specific_sizes={"member": 3},
       kwargs=lambda c: {"ensemble_member_dim": fresh("member"), "lower_threshold": -1.0, "upper_threshold": 2.0},
       passes_weights_dims=True),
-    E("crps_cdf", P, "crps_cdf", "mean", True, [("fcst", "prob", "fcst"), ("obs", "real", "obs")],
+    E("crps_cdf", P, "crps_cdf", "mean", True, [("fcst", "prob", "fcst"), ("obs", "cdfobs", "obs")],
       specific=["threshold"], specific_sizes={"threshold": 4}, make_specific=_sorted_cdf, obs_subset_of_fcst=True,
       kwargs=lambda c: {"threshold_dim": fresh("threshold")}),
     E("crps_cdf_brier_decomposition", P, "crps_cdf_brier_decomposition", "mean", False,
-      [("fcst", "prob", "fcst"), ("obs", "real", "obs")], specific=["threshold"], specific_sizes={"threshold": 4},
+      [("fcst", "prob", "fcst"), ("obs", "cdfobs", "obs")], specific=["threshold"], specific_sizes={"threshold": 4},
       make_specific=_sorted_cdf, kwargs=lambda c: {"threshold_dim": fresh("threshold")}, out_extra_dims=["threshold"],
       obs_subset_of_fcst=True),
     E("roc_curve_data", P, "roc_curve_data", "other", True, [("fcst", "prob", "fcst"), ("obs", "binary", "obs")],
